@@ -206,7 +206,7 @@ def run_suite(exe, suite, seed, tier, prop, timeout):
                 stderr=p.stderr[-4000:].decode(errors="replace"))
 
 
-def run_model(requests):
+def run_model_part(requests):
     exe = os.path.join(LEAN, ".lake", "build", "bin", "drpcmodel")
     p = subprocess.run([exe], input=("\n".join(requests) + "\n").encode(), stdout=subprocess.PIPE,
                        stderr=subprocess.PIPE, timeout=3000)
@@ -214,6 +214,24 @@ def run_model(requests):
     if out and out[-1] == "":
         out.pop()
     return out, p.returncode, p.stderr.decode(errors="replace")[-2000:]
+
+
+def run_model(requests, jobs=12):
+    """requests are stateless, so they are replayed on the model in parallel slices"""
+    from concurrent.futures import ThreadPoolExecutor
+    if len(requests) < 64:
+        return run_model_part(requests)
+    # interleave so that expensive requests spread over the slices
+    parts = [requests[i::jobs] for i in range(jobs)]
+    with ThreadPoolExecutor(jobs) as ex:
+        res = list(ex.map(run_model_part, parts))
+    out = [None] * len(requests)
+    rc, err = 0, ""
+    for i, (o, r, e) in enumerate(res):
+        if r != 0 or len(o) != len(parts[i]):
+            return o, r or 1, e
+        out[i::jobs] = o
+    return out, rc, err
 
 
 # ---------------------------------------------------------------- known findings
